@@ -96,36 +96,45 @@ fn make_app() -> App {
 
 #[derive(Clone, Debug, Serialize, Deserialize)]
 pub struct Batch {
-    /// true: server -> client
+    /// true: server -> all clients (broadcast); false: from client `from` to the server
     pub down: bool,
+    #[serde(default)]
+    pub from: u8,
     /// (channel 0..3, payload size)
     pub msgs: Vec<(u8, u16)>,
 }
 
 #[derive(Clone, Debug, Serialize, Deserialize)]
 pub struct Case {
+    #[serde(default)]
+    pub clients: u8,
     pub batches: Vec<Batch>,
 }
 
 pub fn run(c: &Case) -> Outcome {
+    let n = (c.clients as usize).clamp(1, 3);
     let mut server = make_app();
-    let mut client = make_app();
+    let mut clients: Vec<App> = (0..n).map(|_| make_app()).collect();
     let sock = match ExampleServer::new(0) {
         Ok(s) => s,
         Err(e) => return Outcome::failed(Fail::new("infra.socket", format!("cannot open server socket: {e}"))),
     };
     let port = sock.local_addr().unwrap().port();
     server.insert_resource(sock);
-    match ExampleClient::new(port) {
-        Ok(s) => client.insert_resource(s),
-        Err(e) => return Outcome::failed(Fail::new("infra.socket", format!("cannot connect: {e}"))),
-    };
+    for client in &mut clients {
+        match ExampleClient::new(port) {
+            Ok(s) => client.insert_resource(s),
+            Err(e) => return Outcome::failed(Fail::new("infra.socket", format!("cannot connect: {e}"))),
+        };
+    }
     let t0 = Instant::now();
     loop {
         server.update();
-        client.update();
-        let n = server.world_mut().query::<&ConnectedClient>().iter(server.world()).count();
-        if n == 1 && client.world().resource::<RepliconClient>().is_connected() {
+        for client in &mut clients {
+            client.update();
+        }
+        let k = server.world_mut().query::<&ConnectedClient>().iter(server.world()).count();
+        if k == n && clients.iter().all(|c| c.world().resource::<RepliconClient>().is_connected()) {
             break;
         }
         if t0.elapsed() > Duration::from_secs(5) {
@@ -135,11 +144,12 @@ pub fn run(c: &Case) -> Outcome {
     let mut seq = 0u32;
     let mut max_in_frame = 0usize;
     for b in &c.batches {
+        let from = b.from as usize % n;
         let mut total = 0usize;
         let mut sent: Vec<Vec<(u32, Vec<u8>)>> = vec![Vec::new(); 3];
         for &(ch, size) in &b.msgs {
             let size = (size as usize).min(1200);
-            if total + size > 32 * 1024 {
+            if (total + size) * if b.down { n } else { 1 } > 32 * 1024 {
                 break;
             }
             total += size;
@@ -161,7 +171,7 @@ pub fn run(c: &Case) -> Outcome {
                     }
                 }
             } else {
-                let w = client.world_mut();
+                let w = clients[from].world_mut();
                 match ch {
                     0 => {
                         w.send_event(CA(seq, p));
@@ -176,58 +186,67 @@ pub fn run(c: &Case) -> Outcome {
             }
         }
         let expected: usize = sent.iter().map(|v| v.len()).sum();
-        let (tx, rx) = if b.down { (&mut server, &mut client) } else { (&mut client, &mut server) };
-        rx.world_mut().resource_mut::<Got>().0.clear();
-        rx.world_mut().resource_mut::<GotUp>().0.clear();
         let down = b.down;
-        let got_len = |w: &World| if down { w.resource::<Got>().0.len() } else { w.resource::<GotUp>().0.len() };
-        // the whole batch leaves in one sender frame, i.e. piles up between two frames of the receiver
-        tx.update();
-        let t1 = Instant::now();
-        loop {
+        // the whole batch leaves in one sender frame, i.e. piles up between two frames of each receiver
+        if down {
+            for c in &mut clients {
+                c.world_mut().resource_mut::<Got>().0.clear();
+            }
+            server.update();
+        } else {
+            server.world_mut().resource_mut::<GotUp>().0.clear();
+            clients[from].update();
+        }
+        let nrx = if down { n } else { 1 };
+        let mut gots: Vec<Vec<(u8, u32, Vec<u8>, u32)>> = Vec::new();
+        for r in 0..nrx {
+            let rx: &mut App = if down { &mut clients[r] } else { &mut server };
+            let got_len = |w: &World| if down { w.resource::<Got>().0.len() } else { w.resource::<GotUp>().0.len() };
+            let t1 = Instant::now();
+            loop {
+                rx.update();
+                if got_len(rx.world()) >= expected {
+                    break;
+                }
+                if t1.elapsed() > Duration::from_secs(2) {
+                    break;
+                }
+                std::thread::sleep(Duration::from_micros(200));
+            }
+            // one more frame to catch duplicates
             rx.update();
-            if got_len(rx.world()) >= expected {
-                break;
-            }
-            if t1.elapsed() > Duration::from_secs(2) {
-                break;
-            }
-            std::thread::sleep(Duration::from_micros(200));
+            gots.push(if down { rx.world().resource::<Got>().0.clone() } else { rx.world().resource::<GotUp>().0.clone() });
         }
-        // one more frame to catch duplicates
-        rx.update();
-        let got = if down { rx.world().resource::<Got>().0.clone() } else { rx.world().resource::<GotUp>().0.clone() };
-        let mut per_frame: std::collections::BTreeMap<u32, usize> = Default::default();
-        for g in &got {
-            *per_frame.entry(g.3).or_default() += 1;
-        }
-        max_in_frame = max_in_frame.max(per_frame.values().copied().max().unwrap_or(0));
-        for ch in 0..3u8 {
-            let g: Vec<(u32, &Vec<u8>)> = got.iter().filter(|x| x.0 == ch).map(|x| (x.1, &x.2)).collect();
-            let s = &sent[ch as usize];
-            let gs: Vec<u32> = g.iter().map(|x| x.0).collect();
-            let ss: Vec<u32> = s.iter().map(|x| x.0).collect();
-            if gs != ss {
-                let mut a = gs.clone();
-                a.sort();
-                let class = if a == ss {
-                    "C17.order"
-                } else if gs.len() < ss.len() {
-                    "C17.lost"
-                } else {
-                    "C17.duplicate"
-                };
-                return Outcome::failed(Fail::new(class, format!("{} channel {ch}: sent {ss:?}, received {gs:?}", if b.down { "server->client" } else { "client->server" })));
+        for (r, got) in gots.iter().enumerate() {
+            let mut per_frame: std::collections::BTreeMap<u32, usize> = Default::default();
+            for g in got {
+                *per_frame.entry(g.3).or_default() += 1;
             }
-            for (i, (q, p)) in g.iter().enumerate() {
-                if **p != s[i].1 {
-                    return Outcome::failed(Fail::new("C17.payload", format!("channel {ch} message {q}: payload changed ({} bytes sent, {} received)", s[i].1.len(), p.len())));
+            max_in_frame = max_in_frame.max(per_frame.values().copied().max().unwrap_or(0));
+            let dir = if down { format!("server->client {r}") } else { format!("client {from}->server") };
+            for ch in 0..3u8 {
+                let g: Vec<(u32, &Vec<u8>)> = got.iter().filter(|x| x.0 == ch).map(|x| (x.1, &x.2)).collect();
+                let s = &sent[ch as usize];
+                let gs: Vec<u32> = g.iter().map(|x| x.0).collect();
+                let ss: Vec<u32> = s.iter().map(|x| x.0).collect();
+                if gs != ss {
+                    let mut a = gs.clone();
+                    a.sort();
+                    let class = if a == ss {
+                        "C17.order"
+                    } else if gs.len() < ss.len() {
+                        "C17.lost"
+                    } else {
+                        "C17.duplicate"
+                    };
+                    return Outcome::failed(Fail::new(class, format!("{dir} channel {ch}: sent {ss:?}, received {gs:?}")));
+                }
+                for (i, (q, p)) in g.iter().enumerate() {
+                    if **p != s[i].1 {
+                        return Outcome::failed(Fail::new("C17.payload", format!("{dir} channel {ch} message {q}: payload changed ({} bytes sent, {} received)", s[i].1.len(), p.len())));
+                    }
                 }
             }
-        }
-        let wrong: Vec<_> = got.iter().filter(|x| x.0 > 2).collect();
-        if !wrong.is_empty() {
-            return Outcome::failed(Fail::new("C17.channel", "message arrived on a foreign channel".to_string()));
         }
     }
     let mut out = Outcome::ok();
@@ -238,13 +257,16 @@ pub fn run(c: &Case) -> Outcome {
     if max_in_frame >= 24 {
         out.classes.push("ge24_messages_in_one_receiver_frame");
     }
+    if n >= 2 {
+        out.classes.push("several_clients");
+    }
     out
 }
 
 fn case_strategy() -> impl Strategy<Value = Case> {
     let size = prop_oneof![3 => 0u16..40, 2 => 0u16..=1200, 1 => prop_oneof![Just(0u16), Just(1), Just(255), Just(256), Just(1199), Just(1200)]];
-    let batch = (any::<bool>(), proptest::collection::vec((0u8..3, size), 1..48)).prop_map(|(down, msgs)| Batch { down, msgs });
-    proptest::collection::vec(batch, 1..4).prop_map(|batches| Case { batches })
+    let batch = (any::<bool>(), 0u8..3, proptest::collection::vec((0u8..3, size), 1..48)).prop_map(|(down, from, msgs)| Batch { down, from, msgs });
+    (1u8..=3, proptest::collection::vec(batch, 1..4)).prop_map(|(clients, batches)| Case { clients, batches })
 }
 
 pub struct C17;
@@ -254,7 +276,7 @@ impl Prop for C17 {
         "C17"
     }
     fn units(&self, tier: Tier) -> Vec<Unit> {
-        vec![Unit::new("batches", if tier == Tier::Quick { 3_000 } else { 120_000 })]
+        vec![Unit::new("batches", if tier == Tier::Quick { 6_000 } else { 120_000 })]
     }
     fn run_unit(&self, unit: &Unit, cases: u32, seed: u64, stats: &mut Stats) -> Option<Failure> {
         run_proptest(&unit.name, case_strategy(), cases, seed, 300, stats, |c| guarded("C17", || run(c)))
@@ -266,7 +288,7 @@ impl Prop for C17 {
         }
     }
     fn rule(&self) -> String {
-        "case = 1..3 batches, each 1..47 messages of 0..1200 payload bytes on 3 channels (2 ordered, 1 unordered) in one direction, queued in ONE sender frame so they pile \
+        "case = 1..3 connected clients and 1..3 batches (server -> all clients by broadcast, or one client -> server), each 1..47 messages of 0..1200 payload bytes on 3 channels (2 ordered, 1 unordered) in one direction, queued in ONE sender frame so they pile \
          up between two receiver frames; real loopback TCP sockets of the example backend, no conditioner; carried by independent events (seq, payload). oracle: per channel \
          the received (seq, payload) sequence equals the sent one (order, multiplicity, bytes), judged on the concatenated arrival sequence; only a message still missing 2 s \
          after sending counts as lost. non-trivial = >= 8 messages were handed to the receiver's game logic within one frame (measured on arrival)"
